@@ -60,7 +60,9 @@ func c08HashSub() *engine.Sub {
 	return &engine.Sub{
 		Name: "cid-arithmetic",
 		Rule: "every token of the d<=1 option universe x algorithm, plus tokens with fields of 600, 1023, 1024, 5120 and 70000 bytes: CID of ToSealed, of ToSealedWriter (vs the bytes the sink received), of FromSealed and FromSealedReader (generic and typed, 6 chunkings) all equal 01 71 12 20 || sha256(bytes) computed with crypto/sha256; non-trivial = constructor-accepted tokens",
-		Bound: func(t string) string { return "d<=1 option deviations, 4 (quick) / 7 (thorough) algorithms, 6 chunkings" },
+		Bound: func(t string) string {
+			return "d<=1 option deviations, 4 (quick) / 7 (thorough) algorithms, 6 chunkings"
+		},
 		Gen: func(tier string, emit func(any) bool) {
 			algs := []string{"ed25519", "secp256k1", "p256", "p384"}
 			if tier == "thorough" {
@@ -455,8 +457,8 @@ type c08Case struct {
 func (c *c08Case) Weight() int { return len(c.Reencs) }
 
 var c08BaseSpecs = map[string]TokSpec{
-	"dlg": {Kind: "dlg", Opts: map[string]string{"pol": "nested", "meta": "k=map", "nonce": "12", "exp": "whole"}},
-	"inv": {Kind: "inv", Opts: map[string]string{"args": "k=float1.5", "meta": "keys:c,a,b", "nonce": "12", "iat": "whole", "prf": "3", "cause": "cid"}},
+	"dlg":  {Kind: "dlg", Opts: map[string]string{"pol": "nested", "meta": "k=map", "nonce": "12", "exp": "whole"}},
+	"inv":  {Kind: "inv", Opts: map[string]string{"args": "k=float1.5", "meta": "keys:c,a,b", "nonce": "12", "iat": "whole", "prf": "3", "cause": "cid"}},
 	"dlg2": {Kind: "dlg", Opts: map[string]string{"pol": "values", "nonce": "12"}},
 	// integers and string / bytes / list lengths on both sides of every CBOR head-width boundary (23|24, 2^8, 2^16, 2^32)
 	"inv-bounds": {Kind: "inv", Opts: map[string]string{"args": "bounds", "nonce": "12", "iat": "none"}},
@@ -512,9 +514,9 @@ func c08Decoders(kind string) map[string]func([]byte) (any, error) {
 
 func c08CanonSub() *engine.Sub {
 	return &engine.Sub{
-		Name: "canonical-bytes",
+		Name:   "canonical-bytes",
 		Repeat: true,
-		Rule: "sealed base tokens are parsed with the harness' own CBOR item parser; every single (quick) / every pair (thorough) of data-preserving re-encoding sites is applied: non-minimal head widths, indefinite lengths, chunked strings, map key permutations, narrower floats, undefined for null, spurious tags, extra outer element, trailing bytes; plus key-less signature re-encodings (ECDSA s -> n-s, DER variants, RSA leading zero, Ed25519 s+L). A decoder must reject each re-encoding (two accepted byte strings with the same signed content would have different CIDs); non-trivial = re-encoded bytes differ from the original",
+		Rule:   "sealed base tokens are parsed with the harness' own CBOR item parser; every single (quick) / every pair (thorough) of data-preserving re-encoding sites is applied: non-minimal head widths, indefinite lengths, chunked strings, map key permutations, narrower floats, undefined for null, spurious tags, extra outer element, trailing bytes; plus key-less signature re-encodings (ECDSA s -> n-s, DER variants, RSA leading zero, Ed25519 s+L). A decoder must reject each re-encoding (two accepted byte strings with the same signed content would have different CIDs); non-trivial = re-encoded bytes differ from the original",
 		Bound: func(t string) string {
 			if t == "thorough" {
 				return "3 base tokens x 5 algorithms; all single sites and all pairs of sites of distinct kinds on the Ed25519 tokens"
